@@ -132,8 +132,59 @@ pub fn run(ctx: &Ctx) -> Report {
         }
       }
     }
+    // the same tree and every sub-tree evaluated LAZILY (streaming operators over mixed source
+    // kinds): what each pipeline yields must be a canonical MOC too
+    let mut subs = Vec::new();
+    t.subtrees(&mut subs);
+    for s in &subs {
+      if let Tree::Leaf(..) = s {
+        continue;
+      }
+      rep.evaluations += 1;
+      rep.count("lazy-subtree");
+      match crate::c04::lazy_eval(q, w, s) {
+        Err(p) => rep.violation("lazy evaluation panics", &format!("EXPR {} {} {} # {}", q.c(), w, s.encode(), s.show()), &p, "", "C02_compositions_are_canonical"),
+        Ok((d, r)) => {
+          let m = Moc { q, w, d, r };
+          let a = orc.ask(&format!("VALID {}", m.line()));
+          if a != "OK 1" {
+            rep.violation("a streaming operator pipeline yields a non-canonical MOC", &format!("EXPR {} {} {} # {}", q.c(), w, s.encode(), s.show()), &m.line(), &a, "C02_validity_checker_exact");
+          }
+        }
+      }
+    }
     if t.size() >= 3 {
       rep.nontrivial(&case);
+    }
+  }
+  // ---- exhaustive small scope: every binary streaming operator over every pair of canonical
+  // lists on 4 slots (touching / adjacent / separated operands in both orders), all source kinds
+  let lists = all_canonical(4);
+  for q in ALL_Q {
+    let w = 32u8;
+    let d: u8 = if q == Q::S { 0 } else { 4 };
+    let sh = q.shift(w, d);
+    let mk = |l: &Vec<(u64, u64)>| Moc { q, w, d, r: l.iter().map(|(s, e)| (s << sh, e << sh)).collect() };
+    let mut idx = 0u64;
+    for la in &lists {
+      for lb in &lists {
+        for o in 0..4u8 {
+          idx += 1;
+          let t = Tree::Op2(o, Box::new(Tree::Leaf(idx % 5, mk(la))), Box::new(Tree::Leaf((idx / 5) % 5, mk(lb))));
+          rep.evaluations += 1;
+          rep.count("lazy-exhaustive-pairs");
+          match crate::c04::lazy_eval(q, w, &t) {
+            Err(p) => rep.violation("lazy evaluation panics", &format!("EXPR {} {} {} # {}", q.c(), w, t.encode(), t.show()), &p, "", "C02_compositions_are_canonical"),
+            Ok((dd, r)) => {
+              let m = Moc { q, w, d: dd, r };
+              let a = orc.ask(&format!("VALID {}", m.line()));
+              if a != "OK 1" {
+                rep.violation("a streaming operator yields a non-canonical MOC", &format!("EXPR {} {} {} # {}", q.c(), w, t.encode(), t.show()), &m.line(), &a, "C02_validity_checker_exact");
+              }
+            }
+          }
+        }
+      }
     }
   }
   rep.notes.push(format!("oracle calls: {}", orc.calls));
